@@ -797,17 +797,25 @@ func (c *spendCtx) signOne(t *Tape, class string) {
 		out    *wire.TxOut
 		height uint64
 		seq    uint64
+		cls    CoinClass
 	}
 	var pool []src
 	for _, coin := range c.l.Coins {
-		if !coin.SpendableAt(c.l.Tip) || coin.Amount < 200000 {
+		if coin.Class == ClassStaking {
+			w.Stat("probe.wallet_has_staking_coin")
+			if coin.SpendableAt(c.l.Tip) {
+				w.Stat("probe.wallet_has_withdrawable_staking_coin")
+			}
+		}
+		// (deposits made by the generator are small: no minimum for them)
+		if !coin.SpendableAt(c.l.Tip) || (coin.Amount < 200000 && coin.Class == ClassStd) {
 			continue
 		}
 		seq := wire.MaxTxInSequenceNum
 		if !coin.Coinbase && coin.Lock() > 0 {
 			seq = coin.Lock()
 		}
-		pool = append(pool, src{coin.Op, &wire.TxOut{Value: coin.Amount, PkScript: coin.PkScript}, coin.Height, seq})
+		pool = append(pool, src{coin.Op, &wire.TxOut{Value: coin.Amount, PkScript: coin.PkScript}, coin.Height, seq, coin.Class})
 	}
 	// outputs of pending transactions that pay this wallet
 	pend, ok := w.PendingSet(inst)
@@ -818,7 +826,7 @@ func (c *spendCtx) signOne(t *Tape, class string) {
 		for i, o := range tx.TxOut {
 			cls, holder, _, _, okc := classify(o.PkScript)
 			if okc && cls == ClassStd && c.addrOf[holder] != "" && o.Value >= 200000 {
-				pool = append(pool, src{wire.OutPoint{Hash: h, Index: uint32(i)}, o, c.l.Tip + 1, wire.MaxTxInSequenceNum})
+				pool = append(pool, src{wire.OutPoint{Hash: h, Index: uint32(i)}, o, c.l.Tip + 1, wire.MaxTxInSequenceNum, ClassStd})
 			}
 		}
 	}
@@ -831,10 +839,27 @@ func (c *spendCtx) signOne(t *Tape, class string) {
 	n := 1 + t.Int(4)
 	var sum int64
 	pendingParent := false
+	// withdrawable staking / binding deposits are rare among the coins: half of
+	// the transactions start with one when there is any
+	var deposits []src
+	for _, s := range pool {
+		if s.cls != ClassStd {
+			deposits = append(deposits, s)
+		}
+	}
 	for i := 0; i < n; i++ {
 		s := pool[t.Int(len(pool))]
+		if i == 0 && len(deposits) > 0 && t.Bool(50) {
+			s = deposits[t.Int(len(deposits))]
+		}
 		if _, dup := prevs[s.op]; dup {
 			continue
+		}
+		switch s.cls {
+		case ClassStaking:
+			w.Stat("probe.sign_staking_withdrawal_input")
+		case ClassBinding:
+			w.Stat("probe.sign_binding_withdrawal_input")
 		}
 		prevs[s.op] = s
 		in := wire.NewTxIn(&s.op, nil)
@@ -847,7 +872,12 @@ func (c *spendCtx) signOne(t *Tape, class string) {
 	}
 	nOut := 1 + t.Int(3)
 	rest := sum - 100000
-	for i := 0; i < nOut && rest > 50000; i++ {
+	floor := int64(50000)
+	if sum < 400000 {
+		// only small deposits: signing does not look at fee or dust policy
+		rest, floor = sum-sum/10, 0
+	}
+	for i := 0; i < nOut && rest > floor; i++ {
 		v := rest
 		if i < nOut-1 {
 			v = rest / 2
